@@ -21,6 +21,7 @@ import (
 
 type lockActor interface {
 	open(mode string, timeoutMs int, path string) (string, int)
+	openFail(mode string, timeoutMs int, path string) (string, int)
 	close() string
 	quit()
 }
@@ -37,10 +38,54 @@ func openMode(mode string, timeoutMs int, path string) (*bolt.DB, string, int) {
 	return db, "ok", ms
 }
 
+// openFailMode attempts an open that fails after the file lock has been taken: the requested initial map
+// size is beyond the platform maximum, so Open gives up in mmap and has to release everything again.
+func openFailMode(mode string, timeoutMs int, path string) (string, int) {
+	t0 := time.Now()
+	db, err := bolt.Open(path, 0o600, &bolt.Options{ReadOnly: mode == "ro", Timeout: time.Duration(timeoutMs) * time.Millisecond, InitialMmapSize: 1 << 50})
+	ms := int(time.Since(t0).Milliseconds())
+	if err == nil {
+		_ = db.Close()
+		return "ok", ms
+	}
+	if n := ErrName(err); n == "ErrTimeout" {
+		return n, ms
+	}
+	return "fail", ms
+}
+
+func (a *inprocActor) openFail(mode string, timeoutMs int, path string) (string, int) {
+	return openFailMode(mode, timeoutMs, path)
+}
+func (p *procActor) openFail(mode string, timeoutMs int, path string) (string, int) {
+	r := strings.Fields(p.rpc(fmt.Sprintf("openfail %s %d %s", mode, timeoutMs, path)))
+	ms := 0
+	if len(r) > 1 {
+		fmt.Sscan(r[1], &ms)
+	}
+	if len(r) == 0 {
+		return "err:no-reply", 0
+	}
+	return r[0], ms
+}
+
 func (a *inprocActor) open(mode string, timeoutMs int, path string) (string, int) {
-	db, res, ms := openMode(mode, timeoutMs, path)
-	a.db = db
-	return res, ms
+	// an open without timeout is only issued when Lock.tla says it can succeed; if the lock is (wrongly) still
+	// held it would wait for ever, so it runs under a watchdog and is reported as "hang"
+	type r struct {
+		db  *bolt.DB
+		res string
+		ms  int
+	}
+	ch := make(chan r, 1)
+	go func() { db, res, ms := openMode(mode, timeoutMs, path); ch <- r{db, res, ms} }()
+	select {
+	case x := <-ch:
+		a.db = x.db
+		return x.res, x.ms
+	case <-time.After(30 * time.Second):
+		return "hang", 30000
+	}
 }
 func (a *inprocActor) close() string {
 	if a.db == nil {
@@ -98,7 +143,15 @@ func (p *procActor) close() string { return strings.Fields(p.rpc("close") + " x"
 func (p *procActor) quit() {
 	fmt.Fprintln(p.in, "quit")
 	p.in.Close()
-	_ = p.cmd.Wait()
+	done := make(chan struct{})
+	go func() { _ = p.cmd.Wait(); close(done) }()
+	select {
+	case <-done:
+	case <-time.After(3 * time.Second):
+		// blocked in an open that never returns (reported as a hang by the schedule runner)
+		_ = p.cmd.Process.Kill()
+		<-done
+	}
 }
 
 func init() {
@@ -116,6 +169,11 @@ func init() {
 				fmt.Sscan(f[2], &ms)
 				d, res, took := openMode(f[1], ms, f[3])
 				db = d
+				fmt.Printf("%s %d\n", res, took)
+			case "openfail":
+				ms := 0
+				fmt.Sscan(f[2], &ms)
+				res, took := openFailMode(f[1], ms, f[3])
 				fmt.Printf("%s %d\n", res, took)
 			case "close":
 				if db == nil {
@@ -312,7 +370,7 @@ func CheckC17(c *Ctx) int {
 	dir := filepath.Join(c.WorkDir, "lock")
 	_ = os.MkdirAll(dir, 0o755)
 	var evs []Ev
-	steps, conflicts := 0, 0
+	steps, conflicts, failedOpens := 0, 0, 0
 	for pi, prog := range progs {
 		path := filepath.Join(dir, fmt.Sprintf("l%d.db", pi))
 		bf, err := BuildFile(path, Opts{PageSize: 4096}, ProfileByName(4096, "small"), c.Seed+int64(pi), GenCfg{Keys: 8, Vals: 4, MaxDepth: 2, Txs: 3, OpsPerTx: 5})
@@ -339,6 +397,13 @@ func CheckC17(c *Ctx) int {
 					conflicts++
 				}
 				evs = append(evs, Ev{"ev": "LOpen", "a": st.A, "mode": st.Mode, "timeoutMs": tmo, "res": res, "ms": ms, "expected": st.Res})
+				if res == "hang" || strings.HasPrefix(res, "err:actor-timeout") {
+					break // the actor is stuck in Open: the rest of this schedule cannot be run (the event above is rejected by TraceLock)
+				}
+			} else if st.Op == "openfail" {
+				res, ms := actors[st.A].openFail(st.Mode, 250, path)
+				failedOpens++
+				evs = append(evs, Ev{"ev": "LOpenFail", "a": st.A, "mode": st.Mode, "timeoutMs": 250, "res": res, "ms": ms, "expected": st.Res})
 			} else {
 				evs = append(evs, Ev{"ev": "LClose", "a": st.A, "res": actors[st.A].close()})
 			}
@@ -456,6 +521,7 @@ func CheckC17(c *Ctx) int {
 	c.AddSample(evs[1])
 	c.AddSample(evs[len(evs)-2])
 	c.Cov["evaluations"] = steps
+	c.Cov["opens_failing_after_the_lock_was_taken"] = failedOpens
 	c.Cov["distinct_nontrivial"] = conflicts + len(files)
 	c.Cov["rule"] = "evaluations = schedule steps (open RW/RO with/without timeout, close; 3 actors: one separate process, two inside one process; schedules generated by TLC from Lock.tla) + waiting-open runs + read-only sessions + writable-view probes; non-trivial = an open attempt met a conflicting holder, or a read-only session issued >= 1 API call"
 	return c.Finish(nil)
